@@ -542,7 +542,29 @@ impl<'a> Gen<'a> {
             }
             p.sql()
         };
-        let shape = self.rng.usize(13);
+        let shape = self.rng.usize(15);
+        if shape >= 13 {
+            // aggregation grouped by the key, ordered by it, possibly cut by LIMIT (group keys
+            // are unique, so the cut is well defined): the on-disk plan drops the sort
+            let w = match self.rng.usize(3) {
+                0 => String::new(),
+                1 => format!(" WHERE {} IS NOT NULL", ak.name),
+                _ => range(self, &a, ""),
+            };
+            let desc = self.rng.chance(1, 4);
+            let lim = if self.rng.chance(2, 3) {
+                format!(" LIMIT {}", 1 + self.rng.usize(6))
+            } else {
+                String::new()
+            };
+            let sql = format!(
+                "SELECT {k}, count(*) FROM {t}{w} GROUP BY {k} ORDER BY {k}{d}{lim}",
+                k = ak.name,
+                t = a.name,
+                d = if desc { " DESC" } else { "" }
+            );
+            return Some(Stmt::RawOrdered { sql, keys: vec![(0, desc)] });
+        }
         if shape >= 9 {
             // ORDER BY over a join on primary keys (an outer join's NULL-extended side is not
             // ordered by its key although the merge join consumes it in key order)
@@ -938,7 +960,41 @@ impl<'a> Gen<'a> {
                         .map(|i| (n.clone(), d.cols[i].name.clone()))
                 })
                 .collect();
-            let s = match self.rng.usize(11) {
+            let s = match self.rng.usize(15) {
+                // semi / anti joins (hash or nested-loop semi join) between two tables
+                11 | 12 if pk_tables.len() >= 2 => {
+                    let i = self.rng.usize(pk_tables.len());
+                    let mut j = self.rng.usize(pk_tables.len());
+                    if j == i {
+                        j = (j + 1) % pk_tables.len();
+                    }
+                    let ((ta, ka), (tb, kb)) = (pk_tables[i].clone(), pk_tables[j].clone());
+                    let neg = if self.rng.chance(1, 3) { "NOT " } else { "" };
+                    if self.rng.chance(1, 2) {
+                        Stmt::Raw(format!("SELECT {ka} FROM {ta} WHERE {ka} {neg}IN (SELECT {kb} FROM {tb})"))
+                    } else {
+                        Stmt::Raw(format!(
+                            "SELECT x.{ka} FROM {ta} x WHERE {neg}EXISTS (SELECT 1 FROM {tb} y WHERE y.{kb} = x.{ka})"
+                        ))
+                    }
+                }
+                // aggregation grouped by the primary key (sort aggregation on disk), DISTINCT,
+                // aggregation under a top-n
+                11 | 12 | 13 | 14 => match (pk_tables.iter().find(|(n, _)| *n == t), self.rng.usize(3)) {
+                    (Some((_, k)), 0) => Stmt::Raw(format!("SELECT {k}, count(*) FROM {t} GROUP BY {k}")),
+                    (_, 1) => {
+                        let c = def.cols[self.rng.usize(def.cols.len())].name.clone();
+                        Stmt::Raw(format!("SELECT DISTINCT {c} FROM {t}"))
+                    }
+                    // (no window functions: risinglight evaluates them as running aggregates in
+                    // input order, so their results legitimately depend on the scan order)
+                    _ => match ints.first() {
+                        Some(c) => Stmt::Raw(format!(
+                            "SELECT {c}, count(*), max({c}) FROM {t} WHERE {c} IS NOT NULL GROUP BY {c} ORDER BY {c} LIMIT 5"
+                        )),
+                        None => Stmt::Raw(format!("SELECT count(*) FROM {t}")),
+                    },
+                },
                 9 | 10 if pk_tables.len() >= 2 => {
                     let i = self.rng.usize(pk_tables.len());
                     let mut j = self.rng.usize(pk_tables.len());
